@@ -223,7 +223,9 @@ fn gen_many_cases(seed: u64, k: u64) -> (Vec<Vec<i64>>, bool, Vec<f64>) {
 fn run_lexicase<R: Res>(pop: &Pop<R>, c: usize, trials: u64, seed: u64, name: &str, matrix: &[Vec<i64>], errors: bool, law: &[f64]) -> Result<Vec<u64>, Fail> {
     let lex = Lexicase::new(c);
     let mut rng = StdRng::seed_from_u64(seed);
-    let mut counts = vec![0u64; pop.len()];
+    // one extra slot at the end: disjoint pairs of successive selections that returned the same individual
+    let mut counts = vec![0u64; pop.len() + 1];
+    let mut previous = usize::MAX;
     for t in 0..trials {
         let r = guarded(|| lex.select(pop, &mut rng).map(|w| (w.genome, std::ptr::from_ref(w))).map_err(|e| e.to_string()));
         match r {
@@ -242,6 +244,10 @@ fn run_lexicase<R: Res>(pop: &Pop<R>, c: usize, trials: u64, seed: u64, name: &s
                     ));
                 }
                 counts[id] += 1;
+                if t % 2 == 1 && previous == id {
+                    counts[pop.len()] += 1;
+                }
+                previous = id;
             }
         }
     }
@@ -342,7 +348,11 @@ fn jobs(seed: u64, n_matrices: u64, n_large: u64, n_many: u64) -> (Vec<Job>, Vec
                 } else {
                     "Lexicase/selection-law-simple"
                 };
-                Ok((0..n).map(|i| Stat::new(sig, format!("{name2}: individual {i} selected"), counts[i], trials, chosen.1[i].min(1.0))).collect())
+                let mut stats: Vec<Stat> = (0..n).map(|i| Stat::new(sig, format!("{name2}: individual {i} selected"), counts[i], trials, chosen.1[i].min(1.0))).collect();
+                // successive selections are independent draws from that law
+                let p_same: f64 = chosen.1.iter().map(|p| p * p).sum();
+                stats.push(Stat::new("Lexicase/successive-selections-not-independent", format!("{name2}: two successive selections return the same individual"), counts[n], trials / 2, p_same.min(1.0)));
+                Ok(stats)
             }),
         });
     }
